@@ -386,32 +386,42 @@ theorem cmp_is_rfc (s : Strat) (a b : CRoute) : cmp s a.1 b.1 = .ok (rfcPrefer s
 /-! ## the glue: from a received UPDATE (or any attribute map) to the route `cmp` reads
 
 Model: Rc/Model/PathSelGlue.lean (`routeOfPaMap` = `OrdRoute::try_new` + every read of `cmp`, on
-C17's model of `PaMap` / `PaMap::from_update_pdu`; `rfcRoute` = the reference reading of the
-attribute section).  An accepted UPDATE is one C17's model of `UpdateMessage::from_octets`
+C17's model of `PaMap` / `PaMap::from_update_pdu`; `wireRoute` = the same fields read directly off the
+list of received attributes: a simpler implementation with routecore's policy, the refinement target
+of (a), NOT an independent reading of the RFCs - see `Rfc7606Departure`).  An accepted UPDATE is one C17's model of `UpdateMessage::from_octets`
 (`PaMap.parseUpdate four ap`) accepts, in a session of either AS number width, with or without
 ADD-PATH. -/
 
 section Glue
 open Rc.PaMap Rc.PathSelGlue
 
-/-- **(a) route_of_update_spec** - for EVERY accepted UPDATE and every tie-breaker record, the route
-`PaMap::from_update_pdu` + `OrdRoute::try_new` build is the route the attribute section denotes by
-the RFCs (`rfcRoute`): each field is read from the FIRST attribute with its type code (RFC 7606
-3.g; F27); ORIGIN must be one octet and the AS_PATH must parse in the AS number width of the
-session, else the route is refused (F25: an `Invalid` attribute in the slot does not count);
+/-- **(a) route_of_update_spec** - a REFINEMENT ("implementation = simpler implementation"), not a
+conformance statement: for EVERY accepted UPDATE and every tie-breaker record, the route
+`PaMap::from_update_pdu` + `OrdRoute::try_new` build - through the map (first-wins insertion into
+the sorted list, `lookup`, `from_attribute`) and through the stored representation (AS_PATH widened
+to four octets, re-chunked by `compose_hops`, read back by C04's `parseValue`) - is the route read
+DIRECTLY off the list of received attributes (`wireRoute`): each field from the FIRST attribute with
+its type code (F27); ORIGIN must be one octet and the AS_PATH must parse in the AS number width of
+the session, else the route is refused (F25: an `Invalid` attribute in the slot does not count);
 LOCAL_PREF / MED / ORIGINATOR_ID of another length than four octets and a CLUSTER_LIST that is not
 a whole number of ids count as absent; the AS_PATH hops are C13's `toHopPath` of the octets in
 the session's width (an AS4_PATH is not consulted); and `try_new` accepts exactly when that route
-has an ORIGIN, an AS_PATH and - learned over eBGP - a neighbour AS.  Second part: every attribute
-carries the session's width, i.e. the AS_PATH is read `four` octets wide. -/
+has an ORIGIN, an AS_PATH and - learned over eBGP - a neighbour AS.  What is eliminated is the map
+and the representation (map laws + `path_glue`: C17's octet model and C13's number model of an AS
+path accept the same octets and give the same hops).  `wireRoute`'s case split is routecore's own;
+where RFC 7606 prescribes something else (`Rfc7606Departure`: undefined ORIGIN value, zero-length
+segment, malformed optional attribute, ORIGINATOR_ID / CLUSTER_LIST over eBGP) it follows routecore,
+see `rfc7606_departures_accepted`.  The first conjunct holds for every attribute list `u` (the
+hypothesis is used for the second only): every attribute carries the session's width, i.e. the
+AS_PATH is read `four` octets wide. -/
 theorem route_of_update_spec (four ap : Bool) (pdu : Bytes) (u : Update)
     (h : parseUpdate four ap pdu = .ok u) (tb : Tb) :
     routeOfPaMap (fromUpdate u) tb =
-        (if tryNew (rfcRoute u.attrs tb) = none then .ok (rfcRoute u.attrs tb) else .err) ∧
+        (if tryNew (wireRoute u.attrs tb) = none then .ok (wireRoute u.attrs tb) else .err) ∧
       (∀ w ∈ u.attrs, w.four = four) := by
   refine ⟨?_, parseUpdate_width four ap pdu u h⟩
   simp only [routeOfPaMap, readRoute_fromUpdate]
-  cases tryNew (rfcRoute u.attrs tb) <;> simp
+  cases tryNew (wireRoute u.attrs tb) <;> simp
 
 /-- the hypothesis is satisfiable: an UPDATE of a two-octet session with ORIGIN, AS_PATH (10 20) and one prefix -/
 example : (parseUpdate false false (List.replicate 16 255 ++ [0, 39, 2, 0, 0, 0, 13, 0x40, 1, 1, 0,
@@ -456,18 +466,21 @@ private theorem neighbor_hopsOfSegs (ss : List AsPath.Seg) :
       simp only at h2 ⊢
       rcases ty with _ | _ | _ | n <;> simp_all [neighbor]
 
-/-- ... spelled out for the AS_PATH: when the first AS_PATH attribute of an accepted UPDATE is a valid
-wire path in the session's width, the route's path length is C13's path-selection count of those
-octets (`hopCountSel_wire`: the AS numbers in AS_SEQUENCE segments plus the number of AS_SETs,
-confederation segments nothing) and its neighbour AS is the first AS of the first segment if that is
-an AS_SEQUENCE (none otherwise: the MED step then takes the local AS). -/
+/-- A corollary about the direct reading `wireRoute` ONLY (neither `routeOfPaMap` nor `fromUpdate`
+occurs; the link to the code path is (a) alone; `h` is used for `w.four = four` only): when the first
+AS_PATH attribute of an accepted UPDATE is a valid wire path in the session's width, `wireRoute`'s
+path length is C13's path-selection count of those octets (`hopCountSel_wire`: the AS numbers in
+AS_SEQUENCE segments plus the number of AS_SETs, confederation segments nothing) and its neighbour AS
+is the first AS of the first segment if that is an AS_SEQUENCE (none otherwise: the MED step then
+takes the local AS).  `wirePathSlot` is `toHopPath` by definition; this unfolds it with C13's
+`wire_view` / `hopCountSel_hopsOfSegs`. -/
 theorem update_path_reading (four ap : Bool) (pdu : Bytes) (u : Update)
     (h : parseUpdate four ap pdu = .ok u) (tb : Tb) (w : Wire) (hw : firstWire 2 u.attrs = some w)
     (hc : AsPath.check four w.value = .ok ()) :
     ∃ ss, AsPath.segments four w.value = .ok ss ∧
-      (rfcRoute u.attrs tb).path = .val ((AsPath.hopsOfSegs ss).map selHop) ∧
-      pathLen (rfcRoute u.attrs tb) = (ss.map AsPath.segSel).sum ∧
-      (rfcRoute u.attrs tb).path.get.bind neighbor =
+      (wireRoute u.attrs tb).path = .val ((AsPath.hopsOfSegs ss).map selHop) ∧
+      pathLen (wireRoute u.attrs tb) = (ss.map AsPath.segSel).sum ∧
+      (wireRoute u.attrs tb).path.get.bind neighbor =
         (match ss with
          | [] => none
          | s :: _ => if s.ty = 2 then s.asns.head? else none) := by
@@ -484,8 +497,8 @@ theorem update_path_reading (four ap : Bool) (pdu : Bytes) (u : Update)
         · exact List.mem_cons_of_mem _ (ih hw)
     exact parseUpdate_width four ap pdu u h w hm
   obtain ⟨ss, _, _, hseg, _, hh⟩ := AsPath.wire_view four w.value hc
-  have hp : (rfcRoute u.attrs tb).path = .val ((AsPath.hopsOfSegs ss).map selHop) := by
-    simp [rfcRoute, rfcPathSlot, hw, hfour, hh]
+  have hp : (wireRoute u.attrs tb).path = .val ((AsPath.hopsOfSegs ss).map selHop) := by
+    simp [wireRoute, wirePathSlot, hw, hfour, hh]
   refine ⟨ss, hseg, hp, ?_, ?_⟩
   · simp [pathLen, hp, Slot.get, hopCount_selHop, AsPath.hopCountSel_hopsOfSegs]
   · simp [hp, Slot.get, neighbor_hopsOfSegs]
@@ -502,14 +515,15 @@ example :
 
 /-- **(b) cmp_of_updates_is_rfc** - comparing the routes of two accepted UPDATEs (received in sessions of
 any kind, with any tie-breaker records) that `try_new` accepted yields the RFC 4271 9.1.2.2
-elimination procedure `rfcPrefer` applied to the RFC readings of the two attribute sections:
-(a) composed with `cmp_is_rfc`. -/
+elimination procedure `rfcPrefer` applied to the direct readings (`wireRoute`) of the two attribute
+sections: (a) composed with `cmp_is_rfc`.  The independent side is `rfcPrefer` (the decision steps);
+the reading of the attributes is routecore's (see (a)). -/
 theorem cmp_of_updates_is_rfc (s : Strat) (f1 a1 f2 a2 : Bool) (p1 p2 : Bytes) (u1 u2 : Update)
     (h1 : parseUpdate f1 a1 p1 = .ok u1) (h2 : parseUpdate f2 a2 p2 = .ok u2) (t1 t2 : Tb) (r1 r2 : Route)
     (e1 : routeOfPaMap (fromUpdate u1) t1 = .ok r1) (e2 : routeOfPaMap (fromUpdate u2) t2 = .ok r2) :
-    cmp s r1 r2 = .ok (rfcPrefer s (rfcRoute u1.attrs t1) (rfcRoute u2.attrs t2)) := by
+    cmp s r1 r2 = .ok (rfcPrefer s (wireRoute u1.attrs t1) (wireRoute u2.attrs t2)) := by
   have k : ∀ (f a : Bool) (p : Bytes) (u : Update) (t : Tb) (r : Route), parseUpdate f a p = .ok u →
-      routeOfPaMap (fromUpdate u) t = .ok r → r = rfcRoute u.attrs t ∧ tryNew r = none := by
+      routeOfPaMap (fromUpdate u) t = .ok r → r = wireRoute u.attrs t ∧ tryNew r = none := by
     intro f a p u t r h e
     rw [(route_of_update_spec f a p u h t).1] at e
     split at e
@@ -530,14 +544,26 @@ theorem route_of_pa_map_constructed {m : PaMap.Map} {tb : Tb} {r : Route}
   · cases h
   · cases h
 
-/-- **(c) try_new_total** - `routeOfPaMap` never panics (the reads always find values of the shape
-their type promises) on the map `from_update_pdu` builds from ANY attribute list - malformed,
-repeated, unknown attributes in any slot -, nor on any map reachable from the empty map by any
-sequence of API calls (`set` / `set_from_enum` / `add_attribute` of `Invalid` and `Unimplemented`
-attributes under any type code / `remove` / `remove_non_transitives` / `merge_upsert` /
-`from_update_pdu`) whose typed arguments are values the API can build (`OpOk`; `spec_valok`: every
-attribute a request line denotes); and `cmp` never panics on two routes `try_new` accepted, whatever
-the maps hold (extends `cmp_never_panics_on_constructed`). -/
+/-- **(c) try_new_total** - parts 1 and 2 are MODEL WELL-DEFINEDNESS, not a robustness result about
+routecore (`try_new` and the reads of `cmp` have no panic site: `PaMap::get` clones, `from_attribute`
+pattern-matches): the `.panic` of `routeOfPaMap` is the model's representation check (`getTyped`:
+the stored octets of a typed `Attr` must parse as its type), and it never fires (so the driver never
+prints a `panic` of its own) on the map `from_update_pdu` builds from ANY attribute list -
+malformed, repeated, unknown attributes in any slot -, nor on any map reachable from the empty map
+by any sequence of API calls (`set` / `set_from_enum` / `add_attribute` of `Invalid` and
+`Unimplemented` attributes under any type code / `remove` / `remove_non_transitives` /
+`merge_upsert` / `from_update_pdu`) whose typed arguments satisfy `OpOk`.  `OpOk` = the value octets
+of a typed argument are a PARSE IMAGE: they parse as the type and re-compose to themselves
+(`typedValue c v = some v`).  That covers every value a received UPDATE yields and every attribute a
+C17 request line denotes (`spec_valok`); it does NOT cover every Rust value the public API can
+build: a directly written `OriginType::Unimplemented(n)`, n <= 2, and a `HopPath` holding a non-empty
+AS_SEQUENCE as `Hop::Segment` next to `Hop::Asn`s have no `Attr` of their own (they compose to the
+octets of another value and the model identifies them with it - harmless for `try_new` / `cmp` after
+F37 / F26, see the header of Rc/Model/PathSelGlue.lean).  Routes holding such values are covered at
+the level of the route record (`cmp_is_rfc`, the order laws: ALL `Route`s) and tied by the 12-field
+request lines (`U<n>` origins, `Q..` hops), not by the glue.  Part 3 is about the one real panic
+site (`cmp` step a): `cmp` never panics on two routes `try_new` accepted, whatever the maps hold
+(`cmp_never_panics_on_constructed` + `route_of_pa_map_constructed`). -/
 theorem try_new_total :
     (∀ (u : Update) (tb : Tb), routeOfPaMap (fromUpdate u) tb ≠ .panic) ∧
     (∀ (ops : List Op), (∀ o ∈ ops, OpOk o) → ∀ tb : Tb, routeOfPaMap (run ⟨[], []⟩ ops).a tb ≠ .panic) ∧
@@ -551,6 +577,28 @@ theorem try_new_total :
   refine ⟨fun u tb => np _ (valok_fromUpdate u) tb, fun ops h tb => np _ (valok_run ops h ⟨[], []⟩ valok_empty valok_empty).1 tb, ?_⟩
   intro s m1 m2 t1 t2 r1 r2 e1 e2
   exact cmp_never_panics_on_constructed s ⟨r1, route_of_pa_map_constructed e1⟩ ⟨r2, route_of_pa_map_constructed e2⟩
+
+/-- The four places where the direct reading - hence, by (a), `from_update_pdu` + `try_new` - departs
+from RFC 7606 are real: attribute lists on which RFC 7606 has the route treated as withdrawn (7.1
+undefined ORIGIN value 200; 7.2 AS_PATH with a zero-length segment; 7.4 MULTI_EXIT_DISC of two
+octets) or the attribute discarded (7.9 ORIGINATOR_ID received over eBGP), each accepted by `try_new`
+with the stated reading.  A record of routecore's policy (the property is silent on these routes),
+not a property clause. -/
+theorem rfc7606_departures_accepted :
+    let tb : Tb := ⟨false, none, 65000, 5, false, 1⟩
+    let o : Wire := ⟨0x40, 1, [0], true⟩
+    let p : Wire := ⟨0x40, 2, [2, 1, 0, 0, 0, 10], true⟩
+    (Rfc7606Departure [⟨0x40, 1, [200], true⟩, p] tb = true ∧
+      (routeOfPaMap (fromUpdate ⟨[⟨0x40, 1, [200], true⟩, p], []⟩) tb).toOption.map (·.origin) = some (.val 200)) ∧
+    (Rfc7606Departure [o, ⟨0x40, 2, [2, 1, 0, 0, 0, 10, 1, 0], true⟩] tb = true ∧
+      (routeOfPaMap (fromUpdate ⟨[o, ⟨0x40, 2, [2, 1, 0, 0, 0, 10, 1, 0], true⟩], []⟩) tb).toOption.map (·.path) =
+        some (.val [.asn 10, .seg 1 []])) ∧
+    (Rfc7606Departure [o, p, ⟨0x80, 4, [0, 5], true⟩] tb = true ∧
+      (routeOfPaMap (fromUpdate ⟨[o, p, ⟨0x80, 4, [0, 5], true⟩], []⟩) tb).toOption.map (·.med) = some none) ∧
+    (Rfc7606Departure [o, p, ⟨0x80, 9, [0, 0, 0, 9], true⟩] tb = true ∧
+      (routeOfPaMap (fromUpdate ⟨[o, p, ⟨0x80, 9, [0, 0, 0, 9], true⟩], []⟩) tb).toOption.map (·.originatorId) =
+        some (some 9)) := by
+  decide +kernel
 
 /-- an API call sequence that leaves an `Invalid` attribute under the MED code and an
 `Unimplemented` one under the ORIGINATOR_ID code next to a valid ORIGIN / AS_PATH satisfies `OpOk` -/
